@@ -1900,7 +1900,8 @@ impl CallerEnv {
                     let id2 = *id;
                     let kind2 = *kind;
                     let bc0 = rt::blocking_calls(rt::current());
-                    let r = rt::catch_unwind(move || match kind2 {
+                    let unwinding = w.case.cfg.unwinding_attempts;
+                    let attempt = move || rt::catch_unwind(move || match kind2 {
                         AttemptKind::Desync => h.desync(make_job(&w2, id2, &[], &hs)),
                         AttemptKind::Sync => {
                             sync_call(&w2, &h, id2, &[], &hs);
@@ -1922,6 +1923,28 @@ impl CallerEnv {
                             let _ = block_on(&mut pf);
                         }
                     });
+                    let r = if unwinding {
+                        // the attempt is made by a destructor (under its own catch_unwind) while the caller unwinds from a panic of its
+                        // own: thread::panicking() is true for the whole call, and the attempt must fail just as loudly
+                        struct Attempts<F: FnOnce() -> Result<(), String>>(Option<F>, Arc<std::sync::Mutex<Option<Result<(), String>>>>);
+                        impl<F: FnOnce() -> Result<(), String>> Drop for Attempts<F> {
+                            fn drop(&mut self) {
+                                let r = (self.0.take().unwrap())();
+                                *self.1.lock().unwrap() = Some(r);
+                            }
+                        }
+                        let slot = Arc::new(std::sync::Mutex::new(None));
+                        let g = Attempts(Some(attempt), slot.clone());
+                        w.hist(|| format!("attempt #{} is made while the caller unwinds", id2));
+                        let _ = rt::catch_unwind(move || {
+                            let _g = g;
+                            panic!("dv: the caller panics on its own account (a destructor makes the attempt)");
+                        });
+                        let r = slot.lock().unwrap().take();
+                        r.expect("the destructor ran")
+                    } else {
+                        attempt()
+                    };
                     let bc1 = rt::blocking_calls(rt::current());
                     let expect_panicked = w.with(|i| i.objs[*o as usize].expect_panicked);
                     match r {
